@@ -407,6 +407,262 @@ def type_boundaries(run: Run, tbl, formula):
                               % (label, first, second, want, struct_count), inp)
 
 
+def _snapshot(f):
+    """what the statement speaks about, read from the real object"""
+    try:
+        mf = {pyside.key_of(a): c for a, c in f.mass_fraction.items()}
+    except ZeroDivisionError:
+        mf = "ZeroDivisionError"
+    return dict(structure=pyside.struct_keys(f.structure), atoms={pyside.key_of(a): c for a, c in f.atoms.items()},
+                mass=f.mass, charge=f.charge, mass_fraction=mf)
+
+
+def _vandalise(rng, mapping, tbl):
+    """edit a mapping the way a caller deriving a variant by hand would: drop / move / overwrite / add entries"""
+    keys = list(mapping)
+    how = rng.choice(["pop", "move", "assign", "add", "clear", "scale"])
+    if how == "pop" and keys:
+        mapping.pop(rng.choice(keys))
+    elif how == "move" and keys:
+        mapping[pyside.atom_of((92, 0, 0), tbl)] = mapping.pop(rng.choice(keys))
+    elif how == "assign" and keys:
+        mapping[rng.choice(keys)] = 5.5
+    elif how == "clear":
+        mapping.clear()
+    elif how == "scale":
+        for k in keys:
+            mapping[k] = mapping[k] * 3 + 1
+    else:
+        mapping[pyside.atom_of((94, 0, 0), tbl)] = 2
+    return how
+
+
+def returned_mappings(run: Run, tbl, formula, me):
+    """what f.atoms / f.mass_fraction hand out is the caller's: editing it (the by-hand way to derive a variant,
+    formula(edited counts)) leaves f - and the operand of n*f, f+g, formula(f), f.hill whose result's mapping is
+    edited - with the atom counts, mass, charge and mass fractions of its parts"""
+    rng = run.rng
+    for i in range(150 if run.tier == "quick" else 3000):
+        s = gens.gen_struct(rng, maxdepth=2)
+        route = rng.choice(["seq", "dict", "string", "sum"])
+        if route == "dict":
+            s = [(c, k) for k, c in pyside.flat_counts(s).items()]
+            s = [(float(c) if c.denominator != 1 else int(c), k) for c, k in s]
+        elif route == "string":
+            s = [(rng.choice([1, 2, 3, 7, 0.5, 2.5]), gens.gen_atom(rng)) for _ in range(rng.randint(1, 4))]
+        target = rng.choice(["f.atoms", "f.atoms", "f.mass_fraction", "(1*f).atoms", "(1.0*f).atoms", "(2*f).atoms",
+                             "(f+g).atoms", "formula(f).atoms", "f.hill.atoms", "(1*f).mass_fraction"])
+        inp = dict(structure=s, built_as=route, edited=target)
+        try:
+            if route == "dict":
+                f = formula({pyside.atom_of(k, tbl): c for c, k in s})
+            elif route == "string":
+                f = formula(render_flat(s, tbl))
+            elif route == "sum":
+                f = formula(pyside.struct_objs(s[:1], tbl)) + formula(pyside.struct_objs(s[1:], tbl))
+            else:
+                f = formula(pyside.struct_objs(s, tbl))
+            g = formula(pyside.struct_objs(gens.gen_struct(rng, maxdepth=1), tbl))
+            before, gbefore = _snapshot(f), _snapshot(g)
+            if target.startswith("f."):
+                holder = f
+            elif target.startswith("(f+g)"):
+                holder = f + g
+            elif target.startswith("formula(f)"):
+                holder = formula(f)
+            elif target.startswith("(2*f)"):
+                holder = 2 * f
+            elif target.startswith("(1.0*f)"):
+                holder = 1.0 * f
+            else:
+                holder = 1 * f
+            if target.startswith("f.hill"):
+                holder = f.hill
+            m = holder.mass_fraction if target.endswith("mass_fraction") else holder.atoms
+            inp["edit"] = _vandalise(rng, m, tbl)
+            if rng.random() < 0.5 and not target.endswith("mass_fraction"):
+                try:
+                    formula(m)          # the variant built from the edited counts
+                except Exception:  # noqa  (an edited mapping need not be a valid initializer)
+                    pass
+            after, gafter = _snapshot(f), _snapshot(g)
+        except ZeroDivisionError:
+            continue
+        except Exception as e:  # noqa
+            run.violation("reading / editing the mapping returned by %s raised %s: %s"
+                          % (target, type(e).__name__, str(e)[:80]), inp)
+            continue
+        run.count(key="mapping" + repr(inp), nontrivial=True, tag="returned-mapping")
+        want = pyside.flat_counts(s)
+        for label, b, a in (("f", before, after), ("g", gbefore, gafter)):
+            diff = [q for q in ("structure", "atoms", "mass", "charge", "mass_fraction") if b[q] != a[q]]
+            if diff:
+                run.violation("editing the mapping returned by %s changed the %s of %s: its atom counts / mass are no "
+                              "longer the count-weighted sums of its parts" % (target, ", ".join(diff), label), inp,
+                              before=str(b[diff[0]])[:200], after=str(a[diff[0]])[:200])
+                break
+        else:
+            got = after["atoms"]
+            if set(got) != set(want) or any(not close(float(want[k]), got[k]) for k in want):
+                run.violation("atom counts are not the count-weighted sum of the parts after the mapping returned by "
+                              "%s was edited" % target, inp, got=str(got)[:200])
+
+
+def trace_fractions(run: Run, tbl, formula, me):
+    """mass fractions of trace components (down to 1e-15 of the bulk), listed first, in the middle or last, built by
+    every route: each is count*mass/total mass to a tolerance relative to that fraction, and they sum to one"""
+    rng = run.rng
+    for i in range(250 if run.tier == "quick" else 5000):
+        nb = rng.randint(1, 3)
+        keys = []
+        while len(keys) < nb + rng.choice([1, 1, 2]):
+            k = gens.gen_atom(rng)
+            if k not in keys:
+                keys.append(k)
+        bulk = [(rng.choice([1, 2, 3, 5, 0.5, 12]), k) for k in keys[:nb]]
+        trace = [(rng.choice([1, 2, 3, 5]) * 10.0 ** -rng.randint(4, 15), k) for k in keys[nb:]]
+        where = rng.choice(["last", "last", "first", "middle"])
+        route = rng.choice(["seq", "dict", "string", "add", "iadd", "nested"])
+        if where == "last":
+            s = bulk + trace
+        elif where == "first":
+            s = trace + bulk
+        else:
+            s = bulk[:1] + trace + bulk[1:]
+        inp = dict(structure=s, trace=where, built_as=route)
+        try:
+            if route == "dict":
+                f = formula({pyside.atom_of(k, tbl): c for c, k in s})
+            elif route == "string":
+                f = formula("".join(render_flat([(1, k)], tbl) + ("%.15f" % c).rstrip("0").rstrip(".") if c != 1
+                                    else render_flat([(1, k)], tbl) for c, k in s))
+            elif route in ("add", "iadd"):
+                f = formula()
+                for c, k in s:
+                    if route == "add":
+                        f = f + c * formula(pyside.atom_of(k, tbl))
+                    else:
+                        f += c * formula(pyside.atom_of(k, tbl))
+            elif route == "nested":
+                lead = s[0][0]
+                f = formula([(lead, tuple((c / lead, pyside.atom_of(k, tbl)) for c, k in s[:1])),
+                             (1, tuple((c, pyside.atom_of(k, tbl)) for c, k in s[1:]))])
+            else:
+                f = formula(pyside.struct_objs(s, tbl))
+            counts = {pyside.key_of(a): Fraction(c) for a, c in f.atoms.items()}
+            mf = {pyside.key_of(a): c for a, c in f.mass_fraction.items()}
+        except Exception as e:  # noqa
+            run.violation("formula with a trace component raised %s: %s" % (type(e).__name__, str(e)[:80]), inp)
+            continue
+        run.count(key="trace" + repr(inp), nontrivial=True, tag="trace-" + where)
+        want = {k: Fraction(c) for c, k in s}
+        if set(counts) != set(want) or any(not close(float(want[k]), float(counts[k])) for k in want):
+            run.violation("count of a trace component: expected %s got %s" % (
+                {k: float(v) for k, v in want.items()}, {k: float(v) for k, v in counts.items()}), inp)
+            continue
+        masses = {k: Fraction(pyside.atom_of((k[0], k[1], 0), tbl).mass) - k[2] * me for k in counts}
+        total = sum((counts[k] * masses[k] for k in counts), Fraction(0))
+        if total <= 0:
+            continue
+        if set(mf) != set(counts):
+            run.violation("mass fractions are not listed for exactly the atoms of the formula", inp)
+            continue
+        if not close(sum(mf.values()), 1.0, rel=1e-9):
+            run.violation("mass fractions sum to %r" % sum(mf.values()), inp)
+        for k in counts:
+            exp = float(counts[k] * masses[k] / total)
+            if not close(exp, mf[k], rel=1e-9, abs_=0.0):
+                run.violation("mass fraction of the trace component %s is not count*mass/total mass: expected %r got %r "
+                              "(relative error %.2g)" % (k, exp, mf[k], abs(mf[k] - exp) / exp if exp else 0.0), inp,
+                              atom=str(k))
+                break
+
+
+def revised_masses(run: Run, formula, me):
+    """a private table whose atom masses are revised AFTER ions of those atoms (and formulas over them) were weighed:
+    an ion weighs its atom less charge electron masses - the atom's mass as the table serves it now - and formula
+    mass and mass fractions follow"""
+    from periodictable import core, mass as _mass, density as _density
+    rng = run.rng
+    core.PRIVATE_TABLES.pop("c02-revised", None)
+    t = core.PeriodicTable("c02-revised")
+    _mass.init(t)
+    _density.init(t)
+    base = {}
+
+    def judge(f, want, inp, when):
+        ok = True
+        for k in want:
+            if k[2]:
+                ion, atom = pyside.atom_of(k, t), pyside.atom_of((k[0], k[1], 0), t)
+                expm = float(Fraction(atom.mass) - k[2] * me)
+                if not close(expm, ion.mass, rel=1e-12):
+                    run.violation("an ion does not weigh its atom less charge electron masses %s: %s weighs %r, its "
+                                  "atom %r, expected %r" % (when, k, ion.mass, atom.mass, expm), inp, atom=str(k))
+                    ok = False
+                    break
+        masses = {k: Fraction(pyside.atom_of((k[0], k[1], 0), t).mass) - k[2] * me for k in want}
+        m = sum((want[k] * masses[k] for k in want), Fraction(0))
+        if ok and not close(float(m), f.mass, rel=1e-9):
+            run.violation("mass is not the sum of count times atomic mass %s: expected %r got %r" % (when, float(m), f.mass), inp)
+            ok = False
+        if ok and m > 0:
+            mf = {pyside.key_of(a): c for a, c in f.mass_fraction.items()}
+            for k in want:
+                if not close(float(want[k] * masses[k] / m), mf.get(k), rel=1e-9, abs_=1e-12):
+                    run.violation("mass fraction of %s %s: expected %r got %r"
+                                  % (k, when, float(want[k] * masses[k] / m), mf.get(k)), inp)
+                    ok = False
+                    break
+        return ok
+
+    try:
+        for i in range(120 if run.tier == "quick" else 2500):
+            keys = []
+            for _ in range(rng.randint(1, 4)):
+                k = gens.gen_atom(rng, kinds=("element_ion", "isotope_ion", "element_ion", "common", "isotope"))
+                if k not in keys:
+                    keys.append(k)
+            if not any(k[2] for k in keys):
+                keys.append(rng.choice([(11, 0, 1), (17, 0, -1), (3, 6, 1), (8, 0, -2), (26, 56, 3)]))
+            s = [(rng.choice([1, 2, 3, 0.5, 7]), k) for k in keys]
+            route = rng.choice(["seq", "dict", "string"])
+            revise = {}
+            for k in keys:
+                if rng.random() < 0.75 or (k[2] and not revise):
+                    revise[(k[0], k[1])] = rng.choice([0.125, 0.25, -0.0625, 0.03, 0.001])
+            inp = dict(structure=s, built_as=route, table="private", revised_after_first_read=sorted(
+                (z, a, d) for (z, a), d in revise.items()))
+            run.count(key="revised" + repr(inp), nontrivial=True, tag="revised-masses")
+            try:
+                if route == "dict":
+                    f = formula({pyside.atom_of(k, t): c for c, k in s})
+                elif route == "string":
+                    f = formula(render_flat(s, t), table=t)
+                else:
+                    f = formula(pyside.struct_objs(s, t))
+                want = {k: Fraction(0) for k in keys}
+                for c, k in s:
+                    want[k] += Fraction(c)
+                if not judge(f, want, inp, "when first weighed in this case"):
+                    continue
+                for (z, a), d in revise.items():
+                    atom = pyside.atom_of((z, a, 0), t)
+                    b0 = base.setdefault((z, a), atom.mass)      # revisions are relative to the mass first served
+                    atom._mass = b0 * (1 + d) if atom.mass != b0 * (1 + d) else b0 * (1 + 2 * d)
+                if not judge(f, want, inp, "after the atom's mass was revised in its (private) table"):
+                    continue
+                f2 = 2 * f + formula(pyside.struct_objs(s[:1], t))
+                want2 = {k: 2 * v for k, v in want.items()}
+                want2[s[0][1]] += Fraction(s[0][0])
+                judge(f2, want2, inp, "for a formula built after the atom's mass was revised")
+            except Exception as e:  # noqa
+                run.violation("formula over a private table with revised masses raised %s: %s"
+                              % (type(e).__name__, str(e)[:80]), inp)
+    finally:
+        core.PRIVATE_TABLES.pop("c02-revised", None)
+
+
 def run(run: Run) -> int:
     pt = import_repo()
     from periodictable.formulas import formula
@@ -418,6 +674,9 @@ def run(run: Run) -> int:
     for i in range(0, n, 2000):
         check_programs(run, progs[i:i + 2000], tbl, formula, me)
     type_boundaries(run, tbl, formula)
+    returned_mappings(run, tbl, formula, me)
+    trace_fractions(run, tbl, formula, me)
+    revised_masses(run, formula, me)
     # replay consistency: the first programs once more at the end (nothing may depend on what ran in between)
     check_programs(run, progs[:150], tbl, formula, me)
     return run.finish(RULE, assumptions=[
@@ -431,6 +690,10 @@ def replay(data) -> int:
     me = translate.exact(translate.number_text("periodictable/constants.py", "electron_mass"))
     r = Run("C02", "quick", 0)
     for v in data.get("violations", []) + data.get("disagreements", []):
+        if "program" not in v["input"]:
+            # cases of returned_mappings / trace_fractions / revised_masses: the record names the construction
+            print(v.get("what", v.get("corr")), v["input"])
+            continue
         p = v["input"]["program"]
         p = [tuple(_detuple(x) for x in st) for st in p]
         print("program:", p)
